@@ -434,4 +434,40 @@ Section Proofs.
            | |- context [get n (put ?k ?v ?c)] => rewrite (put_get_other k v c n) by assumption
            end; reflexivity.
   Qed.
+  (* ---------------- projects without config.yml, sequences of runs ---------------- *)
+  Lemma autogen_idem s st : autogen s (Some (autogen s st)) = autogen s st.
+  Proof. reflexivity. Qed.
+
+  Lemma history_lemma : forall s runs st k es, nth_error runs k = Some es ->
+    nth_error (run_seq pf s st runs) k = Some (effective s (autogen s st) es).
+  Proof.
+    intros s runs. induction runs as [|e r IH]; intros st k es H.
+    - destruct k; discriminate.
+    - destruct k as [|k]; cbn in H |- *.
+      + now injection H as ->.
+      + rewrite (IH (Some (autogen s st)) k es H). reflexivity.
+  Qed.
+
+  Lemma get_in_nodup s : NoDup (names s) -> forall n kd d, In (n, kd, d) s -> get n s = Some d.
+  Proof.
+    induction s as [|[[n0 kd0] d0] r IH]; cbn; intros ND n kd d Hin; [destruct Hin|].
+    inversion ND as [|? ? Hk ND']; subst. destruct Hin as [E|Hin].
+    - injection E as -> -> ->. now rewrite String.eqb_refl.
+    - destruct (String.eqb_spec n0 n) as [->|]; [|now apply (IH ND' n kd d)].
+      exfalso. apply Hk. unfold names. apply in_map_iff. exists (n, kd, d). split; [reflexivity | assumption].
+  Qed.
+
+  Lemma base_default_file s : NoDup (names s) -> base s (default_file s) = base s (fun _ => None).
+  Proof.
+    intros ND. unfold base. apply map_ext_in. intros [[n kd] d] Hin. unfold default_file.
+    now rewrite (get_in_nodup s ND n kd d Hin).
+  Qed.
+
+  (* every run of a sequence on a project that had no config.yml: defaults overlaid by ITS OWN line only *)
+  Lemma history_nofile_lemma : forall s runs k es, NoDup (names s) -> nth_error runs k = Some es ->
+    nth_error (run_seq pf s None runs) k = Some (effective s (fun _ => None) es).
+  Proof.
+    intros s runs k es ND H. rewrite (history_lemma s runs None k es H). f_equal.
+    unfold ConfigModel.effective. cbn [autogen]. now rewrite base_default_file.
+  Qed.
 End Proofs.
